@@ -246,6 +246,13 @@ Fixpoint alternates (open : bool) (l : list mark) : bool :=
   | MEnd _ _ _ :: r => if open then alternates false r else false
   end.
 
+(* a request follows the context of the caller it is made for: it ends no later than that context *)
+Definition end_ok (callers : list caller) (m : mark) : bool :=
+  match m with
+  | MEnd o t _ => t <=? fst (cend (nth o callers (C 0 None None)))
+  | MStart _ _ => true
+  end.
+
 (* no caller is failed with a context error except by its own context, at its own instant;
    nobody returns after its own context ended *)
 Definition res_ok (callers : list caller) (d : nat * res * N) : bool :=
